@@ -21,7 +21,7 @@ theorem find_ok {d : Nat} {n : Node K V} (h : WF eq hashf d n) :
       cases x with
       | kv k0 v0 => exact ⟨_, rfl⟩
       | sub n => exact ih _ n hc hs hash k
-  | @array d nc cs hd hlen hnc hsub hkeys ih =>
+  | @array d nc cs hd hlen hnc hmin hsub hkeys ih =>
     intro hash k
     rw [find_array eq d (by omega)]
     have hc := chunkN_lt d hash
